@@ -236,6 +236,30 @@ func (ps pointSpec) build() *input.Point {
 	return input.InitPt(pt, ps.Meas, tags, fields, ps.when())
 }
 
+// (round 11) every third run of a worker process works on a point object the host owns and initialises
+// again without ever handing it to the pool: InitPt alone makes a point describe its input
+var hostPoint *input.Point
+var heldBuilds int
+
+func (ps pointSpec) buildHeld() *input.Point {
+	heldBuilds++
+	if heldBuilds%3 != 0 {
+		return ps.build()
+	}
+	tags := map[string]string{}
+	for _, t := range ps.Tags {
+		tags[t[0]] = t[1]
+	}
+	fields := map[string]any{}
+	for _, f := range ps.Fields {
+		fields[f.K] = fieldVal(f)
+	}
+	if hostPoint == nil {
+		hostPoint = &input.Point{}
+	}
+	return input.InitPt(hostPoint, ps.Meas, tags, fields, ps.when())
+}
+
 func dumpPoint(pt *input.Point) map[string]any {
 	tags := [][]string{}
 	for k, v := range pt.Tags {
@@ -381,7 +405,7 @@ func runV1With(rc runCase, held *loadedSet) (map[string]any, *loadedSet) {
 		res["obs"] = map[string]any{"outcome": "notloaded"}
 		return res, set
 	}
-	pt := rc.Point.build()
+	pt := rc.Point.buildHeld()
 	rec := &probeRec{events: [][]string{}}
 	probeRecs.Store(any(pt), rec)
 	obs := map[string]any{}
@@ -422,6 +446,8 @@ func runV1With(rc runCase, held *loadedSet) (map[string]any, *loadedSet) {
 	obs["trace"] = rec.events
 	obs["stdout"] = hx(takeStdout())
 	res["obs"] = obs
-	input.PutPoint(pt)
+	if pt != hostPoint {
+		input.PutPoint(pt)
+	}
 	return res, set
 }
